@@ -12,7 +12,7 @@ import re
 from hypothesis import strategies as st
 
 from pbt import dsl, findings
-from pbt.common import Violation, run_enumeration, run_hypothesis
+from pbt.common import Violation, guarded, run_enumeration, run_hypothesis
 
 ID = 'C19'
 RULE = ('complete enumeration per format (48) x both is_extensible settings of candidate strings f1 s1 f2 s2 f3: quick = the pairwise '
@@ -220,10 +220,10 @@ def run_shard(spec, ctx):
         total = 0
         for fmt in spec['formats']:
             for ext in (False, True):
-                try:
+                def one(fmt=fmt, ext=ext):
+                    nonlocal total
                     total += enumerate_format(fmt, ext, spec['full'], ctx)
-                except Violation as v:
-                    ctx.record_violation(v, shrunk=False)
+                guarded(ctx, {'formats': fmt, 'ext': ext, 'texts': ['31-12-2024']}, one)
         ctx.exhaustive[('full product' if spec['full'] else 'pairwise slice') + ' of field candidates per format x is_extensible'] = total
     else:
         run_hypothesis(ctx, gen_strategy(), check_case, spec['examples'])
